@@ -41,6 +41,18 @@ def run(ctx):
     tpicked = tcases[:96] if q else tcases
     ttraces, _ = lc.run_sharded(ctx, "c10", tpicked, shards=12 if q else 14, extra_args=["-mode", "tcp"], tag="_tcp")
     traces = traces + ttraces
+    # guided part: the single-request schedules of Scenarios.tla that end a request inside the retry window (an admitted
+    # retry that cannot start: deadline passed during the back-off, every host failing its health check meanwhile, timer
+    # and reset callbacks racing the retry) - after each run the clusters' books must be back at zero
+    gcases = lc.scenario_cases(ctx, "Scenarios", "Scenarios.cfg")
+    gwin = [c for c in gcases if c["hold"] in lc.RETRY_GATES or c["hold2"] in lc.RETRY_GATES or c.get("steps")]
+    gdown = [c for c in gwin if c["during"] == "hostsdown"]
+    grest = [c for c in gwin if c["during"] != "hostsdown"]
+    gpicked = gdown + (rng.sample(grest, min(len(grest), 260)) if q else grest)
+    gtraces, gresults = lc.run_sharded(ctx, "c03", gpicked, shards=8 if q else 14, extra_args=["-books"], tag="_guided")
+    lc.validate(ctx, "C10", gtraces, gresults, kinds_for_property=lc.RESOURCE_KINDS,
+                sigfn=lambda pid, kind, case, rt: "C10:guided:%s:hold=%s:during=%s" % (kind, case.get("hold"), case.get("during")))
+    ctx.cov["guided_retry_window"] = dict(cases=len(gpicked), hostsdown=len(gdown))
     allp = os.path.join(ctx.tmp, "c10_all.ndjson")
     with open(allp, "w") as fo:
         for t in traces:
